@@ -21,6 +21,7 @@
    C20_coarse, C20_scenario_coarse
                              the switch-only-at-yield-sites granularity of the scheduler of the
                              harness is a special case of the schedules quantified over
+   C20_parallel_is_sequential  positional consumers of iterator.parallel() = the sequential ones
    The defect that was repaired (shared cell, sh = true; defect 42 of DESIGN section 6):
    C20_shared_readers_independent   no thread can write the mode cell -> every thread = solo
    C20_shared_guarded               a thread that is straight-line, or whose fellow threads cannot
@@ -84,6 +85,13 @@ Theorem C20_scenario_coarse : forall sc cs i o t',
   nth_error (thr (run_coarse false cs (init sc))) i = Some t' ->
   files_ok t' /\ dead t' = false /\ (finished t' = true -> out t' = spec_out (members sc) o).
 Proof. exact scenario_independent_coarse. Qed.
+
+(* the parallel adaptors: as transcribed (collect the sequential iterator, hand the vector to rayon
+   as an indexed parallel iterator) every positional consumer returns what the sequential iterator
+   returns, order included.  That rayon honours positions under real scheduling is sampled by the
+   run (pools of 2..8 workers over thousands of annotations), not proved. *)
+Theorem C20_parallel_is_sequential : forall l, par_consumers l = seq_consumers l.
+Proof. exact parallel_consumers_sequential. Qed.
 
 (* ---- the shared-cell design ---- *)
 Theorem C20_shared_readers_independent : forall c0 st,
